@@ -195,7 +195,51 @@ SELF_DEP = [
     "local f(x=y, y=x) = x; f()", "local a = {b: a.b}; a.b", "local a = std.length(a); a",
     "{a: super.a}.a", "local a = [x for x in a]; a", "local s = s + 'x'; s",
     "{assert self.a == 1, a: self.b, b: self.a}",
+    # an element of a lazily built array that needs itself
+    "local a = std.map(function(x) a[0], [1]); a[0]", "local a = std.makeArray(2, function(i) a[i]); a[1]",
+    "local a = std.mapWithIndex(function(i, x) a[i] + x, [1, 2]); a[0]", "local a = [a[1], a[0]]; a[0]",
+    "local a = std.map(function(x) a[1 - x], [0, 1]); a[0]", "local a = std.filter(function(x) a[0] > 0, [1]); a[0]",
+    "local o = {a: std.map(function(x) o.a[0], [1])}; o.a[0]", "local a = [x + a[0] for x in [1]]; a[0]",
+    "local a = std.makeArray(1, function(i) std.length(std.toString(a))); a[0]", "local a = std.sort(std.map(function(x) a[0], [1])); a[0]",
 ]
+
+# elements that refer to *other* elements of the array they belong to (running totals, memoised recurrences): a value
+SELF_REF_OK = [
+    ("local a = std.makeArray(6, function(i) if i == 0 then 1 else a[i - 1] + 1); a[5]", 6.0),
+    ("local a = std.map(function(x) if x == 0 then 1 else a[x - 1] * 2, std.range(0, 7)); a[7]", 128.0),
+    ("local a = std.mapWithIndex(function(i, x) if i == 0 then x else a[i - 1] + x, [1, 2, 3, 4]); a[3]", 10.0),
+    ("local a = [if i < 2 then 1 else a[i - 1] + a[i - 2] for i in std.range(0, 10)]; a[10]", 89.0),
+    ("local a = std.makeArray(3, function(i) std.length(a)); a", [3.0, 3.0, 3.0]),
+    ("local a = std.map(function(x) std.length(a) + x, [1, 2]); [a[1], a[0], a[1]]", [4.0, 3.0, 4.0]),
+    ("local o = {t: std.map(function(i) if i == 0 then 0 else o.t[i - 1] + i, std.range(0, 4))}; o.t[4]", 10.0),
+    ("local a = std.map(function(x) x, std.map(function(x) if x == 0 then 5 else a[0], [0, 1])); a[1]", 5.0),
+    ("local a = std.reverse(std.makeArray(3, function(i) if i == 2 then 7 else a[0])); a", [7.0, 7.0, 7.0]),
+]
+
+# configurations of external variables and top-level arguments (value, code, from file; present, missing,
+# unknown, malformed, self-referring) over programs that read them or ignore them
+CFG_PROGRAMS = ["std.extVar('a')", "std.extVar('missing')", "[std.extVar('a'), std.extVar('b')]", "function(a, b=2) [a, b]", "function() 1",
+                "function(a) a", "1", "function(a=error 'x') 1", "function(a) std.extVar('a')", "{f: function(a) a}", "function(a) function(b) [a, b]",
+                "function(a, a2=a) a2", "std.length(std.extVar('a'))", "function(b, a) a"]
+CFG_VALUES = [("str", ""), ("str", "x"), ("str", "é😀"), ("str", "1+"), ("code", "1+1"), ("code", "1+"), ("code", "error 'e'"), ("code", "function(x) x"),
+              ("code", "std.extVar('a')"), ("code", "std.extVar('b')"), ("code", "import 'nonexistent.jsonnet'"), ("code", "{a: std.extVar('b')}"),
+              ("code", "local r(n) = r(n + 1); r(0)"), ("code", ""), ("code", "\u0000"), ("strfile", "/nonexistent/file"), ("codefile", "/nonexistent/file"),
+              ("codefile", "/dev/null"), ("strfile", "/proc/self/cmdline")]
+
+
+def config_cases(rng, n):
+    out = []
+    for _ in range(n):
+        job = {}
+        for key in ("ext", "tla"):
+            if rng.random() < 0.75:
+                names = rng.sample(["a", "b", "zz", "a2", ""], rng.randrange(1, 4))
+                job[key] = [[nm] + list(rng.choice(CFG_VALUES)) for nm in names]
+        if "tla" not in job and rng.random() < 0.5:
+            job["tla"] = []
+        out.append((rng.choice(CFG_PROGRAMS), job))
+    return out
+
 
 NEST = {
     "array": ("[" , "1", "]"), "paren": ("(", "1", ")"), "unary": ("-", "1", ""), "not": ("!", "true", ""),
@@ -388,6 +432,20 @@ def shard(idx, n, tier, seed, builds):
                 elif cls == "ok":
                     acc.violation({"oracle": "self-dependent-value", "code": code},
                                   {"code": code, "observed": pay, "build": build})
+            for code, want in runner.chunks(SELF_REF_OK, idx, n):
+                cls, pay = observe(acc, w, build, "self-referring-array", "selfref", code)
+                if cls == "ok" and strict_json(pay) == want:
+                    acc.distinct(code)
+                elif cls in ("ok", "err"):
+                    acc.violation({"oracle": "self-referring-array-value", "code": code, "got": cls if cls == "ok" else pay["kind"]},
+                                  {"code": code, "expected": want, "observed": pay, "build": build})
+            for code, job in config_cases(rng, (3000 if tier == "quick" else 40000) // n):
+                cls, pay = observe(acc, w, build, "config", "config", code, job_extra=job)
+                if cls in ("ok", "err"):
+                    acc.distinct(code + json.dumps(job, sort_keys=True))
+                    acc.add("config_kinds", "+".join(sorted({v[1] for k in ("ext", "tla") for v in job.get(k, [])})) or "none")
+                    if cls == "err" and rng.random() < 0.1:
+                        sentinel(acc, w, build, {"category": "config", "code": code})
             for name, d, code in runner.chunks(nest_cases(tier), idx, n):
                 cls, pay = observe(acc, w, build, "nesting", name, code, extra={"depth": d},
                                    job_extra={"max_stack": 200000}, timeout=60)
@@ -420,7 +478,8 @@ def run(tier, seed, t0):
              "tuples (all tuples from a %d-value pool for arity <= 2, pairwise covering for >= 3, wrong "
              "arity); (a) random bytes / token soup / mutated valid programs as source; (d) 7 recursion "
              "shapes x frame limits {20,200,512,5000} below and above the limit; (e) self-dependent "
-             "values; (g) syntactic nesting sweep; (f) sentinel evaluations on the same thread after "
+             "values; (g) syntactic nesting sweep; (i) external-variable / top-level-argument configurations (value, code, "
+             "from file; missing, unknown, malformed, self-referring); (f) sentinel evaluations on the same thread after "
              "errors; on rel and chk builds; (h) a sample of those jobs replayed under AddressSanitizer, "
              "valgrind memcheck and (thorough) Miri. distinct_nontrivial = distinct sources that ran to a value "
              "or a Jsonnet error" % len(POOL),
